@@ -3,7 +3,7 @@ NEXT XNext
 CONSTANTS
   Alphabet = {65, 66, 10}
   MaxLen = 3
-  Sizes <- MCSizes
+  Sizes <- QSizes
   Delims <- MCDelims
   ChunkSizes = {1, 2}
   MaxDepth = 2
